@@ -1,1 +1,27 @@
-fn main() { eprintln!("engine not built yet"); std::process::exit(2); }
+use hx_common::*;
+use isograph_lang_parser::IsographLangTokenKind;
+use logos::Logos;
+use std::panic::{catch_unwind, AssertUnwindSafe};
+
+fn run_lex(f: &[&str]) -> String {
+    let text = String::from_utf8(unhex(f[1]).unwrap()).unwrap();
+    match catch_unwind(AssertUnwindSafe(|| {
+        let mut lx = IsographLangTokenKind::lexer(&text);
+        let mut out = vec![];
+        while let Some(k) = lx.next() {
+            out.push(format!("{:?}:{}:{}", k, lx.span().start, lx.span().end));
+        }
+        out.push(format!("eof:{}:{}", lx.span().start, lx.span().end));
+        out.join(",")
+    })) {
+        Ok(s) => s,
+        Err(_) => "panic".to_string(),
+    }
+}
+
+fn main() {
+    main_loop(&|_r, _i| vec![], &mut |f| match f[0] {
+        "iso.lex" => run_lex(f),
+        _ => "bad-op".to_string(),
+    });
+}
